@@ -50,6 +50,11 @@ def Vel.calcR (v : Vel) : Res (Option Velocity) :=
         pure (some { vEw := a, vNs := b, vrate := r })
   | _ => .ok none
 
+/-- `x as i16` for a `u16` value: two's-complement reinterpretation (never panics) -/
+def asI16 (n : Nat) : Int := if n % 65536 < 32768 then ((n % 65536 : Nat) : Int) else ((n % 65536 : Nat) : Int) - 65536
+/-- an `i16` operation whose exact result is `x` overflows (debug builds panic, and so does the crate's release profile with overflow checks) -/
+def i16out (x : Int) : Bool := decide (x < -32768) || decide (32767 < x)
+
 /-! ## track angle and ground speed: generic in the number type
 
 `heading = atan2(v_ew, v_ns)·(360/2π)`, `+360` when negative; `speed = hypot(v_ew, v_ns)`.  The driver and the renderer
